@@ -59,8 +59,37 @@ def import_thermosteam():
     import warnings
     warnings.filterwarnings('ignore')
     setup_path()
+    _harden_numba_cache()
     import thermosteam as tmo
     here = os.path.realpath(os.path.dirname(os.path.dirname(tmo.__file__)))
     if here != os.path.realpath(repo_path()):
         raise RuntimeError(f'thermosteam imported from {here}, expected {repo_path()}')
     return tmo
+
+
+_numba_patched = False
+
+
+def _harden_numba_cache():
+    """numba 0.60 can fail while SAVING a freshly compiled overload to its on-disk cache
+    (ReferenceError: underlying object has vanished, raised from Cache.save_overload when a jitted
+    flexsolve solver receives a function argument).  The exception surfaces in whichever call happens
+    to compile first in a process, which would make a run depend on what ran before it in the same
+    worker.  A failed cache write must never fail the computation: swallow it (the overload stays
+    compiled in memory)."""
+    global _numba_patched
+    if _numba_patched:
+        return
+    try:
+        import numba.core.caching as nc
+    except Exception:
+        return
+    orig_save = nc.Cache.save_overload
+
+    def save_overload(self, sig, data):
+        try:
+            return orig_save(self, sig, data)
+        except Exception:
+            return None
+    nc.Cache.save_overload = save_overload
+    _numba_patched = True
